@@ -37,6 +37,18 @@ def num_join(a, b):
     return ea, eb, IntS
 
 
+class VGenObj(Value):
+    """a generator object nobody consumes inside the function under analysis (it is handed on or returned): only its
+    outermost iterable has been evaluated, as Python does when the expression is.  What the contracts can say about
+    it is the language rule: a generator whose frame raised is finished (`resumable(x)` is false for it)"""
+    def __init__(self, node, first):
+        self.shape = None
+        self.node, self.first = node, first
+
+    def __repr__(self):
+        return 'VGenObj(line %s)' % getattr(self.node, 'lineno', '?')
+
+
 class VGen(Value):
     """generator expression over a symbolic collection (not yet consumed)"""
     def __init__(self, node, seq, ex):
@@ -765,6 +777,15 @@ class EvalMixin:
         raise Unsupported('starred')
 
     def ev_GeneratorExp(self, node):
+        g0 = node.generators[0]
+        lazy_src = isinstance(g0.iter, ast.Call) and isinstance(g0.iter.func, ast.Name) and g0.iter.func.id == 'enumerate'
+        if len(node.generators) > 1 or lazy_src:
+            # not consumed here: evaluate the outermost iterable (its argument, for enumerate(...)) and hand the
+            # suspended generator on
+            first = self.ev(g0.iter.args[0]) if lazy_src and len(g0.iter.args) == 1 else self.ev(g0.iter)
+            if lazy_src and isinstance(first, (STup, PyList)) or (lazy_src and isinstance(first, SRef)):
+                return self.comprehension(node)       # a concrete / heap sequence: the usual treatment
+            return VGenObj(node, first)
         return self.comprehension(node)
 
     def ev_DictComp(self, node):
